@@ -52,7 +52,7 @@ CHECKS = {
                   'cross-check), leaf oracle = bitwise equality with the sequential run, per-step monitors',
         text='The client is replaced by an environment whose every task-completion order and readiness answer is a '
              'choice; the complete schedule tree of each driver (n_sim / quantile / threshold Rejection, 2-3 round SMC '
-             'with threshold and quantile lists) is executed on the real sampler for max_parallel_batches 1..4, with '
+             'with threshold and quantile lists, AdaptiveDistanceSMC, AdaptiveThresholdSMC) is executed on the real sampler for max_parallel_batches 1..4, with '
              'in-process and pickled task isolation. Every leaf must equal the sequential reference bit for bit; '
              'monitors check strict index order, the outstanding bound, no use of cancelled tasks and an empty client.',
         note='Trusted: the environment model (tasks finish one at a time at client API calls, truthful is_ready, no task '
@@ -113,7 +113,7 @@ CHECKS = {
              'answer tree of every (dim, sigma, n_samples, warm-up, seed) configuration up to 4 steps (6 thorough) runs on '
              'the real kernel and chain and proposals must equal the reference bit for bit. On real targets with hard '
              'boundaries and NaN/+inf regions both samplers must return the requested count, be deterministic in the seed '
-             'independently of the global generator and never return a state with -inf/NaN target. For NUTS the uniform '
+             'independently of the global generator and never return a state with -inf/NaN target; NUTS runs are repeated with a target that keeps the gradient arrays it hands out (arrays unchanged, same chain). For NUTS the uniform '
              'draws are the environment: complete trees of coin-flip sequences (one iteration, up to three doublings; '
              'deviation-bounded beyond) on smooth targets, every iteration checked against the leapfrog trajectory through '
              '(previous state, drawn momentum) and the slice. Moments are a fixed finite regression table, not exhaustive.',
@@ -148,7 +148,9 @@ CHECKS = {
              'exactly n in-bounds rows, the simulator must receive exactly the acquired rows, a synchronous acquisition must '
              'see all earlier batches, and the surrogate evidence must equal precomputed + consumed batches in index order '
              'and be identical for every schedule. With real GPs every acquisition class must return (n,d) in-bounds '
-             'points for all noise settings, bounds and priors, and LCBSC/MaxVar gradients must equal central differences.',
+             'points for all noise settings, bounds and priors, and LCBSC/MaxVar gradients must equal central differences. With a '
+             'user-given surrogate whose parameter order differs from the model (two parameters with disjoint ranges) the evidence '
+             'rows must be the simulated pairs in the surrogate order.',
         note='Trusted: client environment model as in C04; the stub surrogate stands for the GP in schedule exploration '
              '(real GP runs are schedule-free); numeric-derivative tolerances on well-scaled bounds only.',
         design_ref='4 C11'),
@@ -212,7 +214,7 @@ CHECKS = {
     'C20': dict(
         level='model_checking',
         technique='bounded product enumeration of the real likelihood, transform and ratio functions against closed-form references from the papers, plus stateless DFS (vmc.explore) over all environment answer sequences (proposal step, simulation finiteness, round log-likelihood) of the real BSL step methods and the real sample() loop, compared with a reference Metropolis',
-        text='On explicit well-conditioned matrices (n <= 20, d <= 3) and observed-vector grids the standard (whitened, Warton-shrunk, glasso-at-0), Ghurye-Olkin and mean/variance-adjusted synthetic log-likelihoods equal their published formulas; for every tuple of bound-row types (<= 3 rows) the logit/log transform round-trips and its log-Jacobian equals the central-difference derivative of the back-transform; _get_mh_ratio equals posterior ratio x Jacobian ratio at the transformed points; for every answer sequence up to chain length 4 (5 for one configuration, 7 with <= 3 deviations) the chain, the stored log densities and the number of simulator invocations equal the reference, and outside-support proposals are recorded as rejections with zero simulations; two sample() calls on one object over all ordered pairs of parameter orders (two parameters with different supports) never simulate outside the support and keep every chain state inside it.',
+        text='On explicit well-conditioned matrices (n <= 20, d <= 3) and observed-vector grids the standard (whitened, Warton-shrunk, glasso-at-0), Ghurye-Olkin and mean/variance-adjusted synthetic log-likelihoods equal their published formulas; for every tuple of bound-row types (<= 3 rows) the logit/log transform round-trips and its log-Jacobian equals the central-difference derivative of the back-transform; _get_mh_ratio equals posterior ratio x Jacobian ratio at the transformed points; for every answer sequence up to chain length 4 (5 for one configuration, 7 with <= 3 deviations) the chain, the stored log densities and the number of simulator invocations equal the reference, and outside-support proposals are recorded as rejections with zero simulations; two sample() calls on one object over all ordered pairs of parameter orders (two parameters with different supports) never simulate outside the support and keep every chain state inside it; in real robust-BSL runs every gamma update is given the moments and the adjusted log-likelihood of one set of simulated summaries.',
         note='Trusted: numpy/scipy linear algebra and special functions in the reference; scipy.stats uniform/truncnorm prior reference. Tolerances 1e-10 (unshrunk Gaussian, misspec) and 1e-8 (Ghurye-Olkin) relative to max(1,|value|), the exact bound of the 1e-5 Warton jitter; the +-700 exponent clip is accepted; u == prob ties unjudged (none occurred); the Ghurye-Olkin reference is self-tested unbiased (d=1 quadrature). Out of scope: the gamma slice sampler, glasso with penalty > 0, the semi-parametric estimator (not in the statement; runs only with --only lik-semiparam), ill-conditioned inputs.',
         design_ref='4 C20'),
     'C15': dict(
